@@ -38,6 +38,17 @@ class InjectedFault(Exception):
     pass
 
 
+def wd_pairs(a, ret):
+    """(operation, reason code) of every termination reported by watchdog.execute / run_maintenance."""
+    if a[0] == "wd":
+        t = ret
+    elif a[0] == "maint" and ret and ret[0] >= 0:
+        t = ret[1 + 2 * ret[0]:]
+    else:
+        return []
+    return list(zip(t[0::2], t[1::2]))
+
+
 class VClock:
     """Stands in for the `datetime` name of the coordination modules."""
     now_s = 0
@@ -54,14 +65,28 @@ class World:
         from operon_ai.coordination import system as S
         self.S = S
         td = lambda x: None if x is None else timedelta(seconds=x)
-        self.sys = S.CoordinationSystem(max_operation_time=td(w.get("max")),
-                                        starvation_timeout=td(w.get("starve")),
-                                        progress_timeout=td(w.get("progress")))
+        self.cell = None
+        if w.get("via") == "cell":
+            # the same system, reached through operon_ai.cell.IntegratedCell (execute / run_maintenance / health /
+            # shutdown / register_resource); the cell only passes max_operation_time on, the other two time-outs
+            # are the watchdog's public fields
+            from operon_ai.cell import IntegratedCell
+            self.cell = IntegratedCell(pool_capacity=w.get("pool", 1000), max_operation_time=td(w.get("max")))
+            self.sys = self.cell.coordination
+            self.sys.watchdog.starvation_timeout = td(w.get("starve"))
+            self.sys.watchdog.progress_timeout = td(w.get("progress"))
+            if w.get("agent"):
+                self.cell.register_agent("agent")
+        else:
+            self.sys = S.CoordinationSystem(max_operation_time=td(w.get("max")),
+                                            starvation_timeout=td(w.get("starve")),
+                                            progress_timeout=td(w.get("progress")))
         self.sys.watchdog.deadlock_strategy = w.get("strategy", "priority")
         self.ctl = self.sys.controller
         self.res = [r for r, _ in res]
         for r, pre in res:
-            self.sys.register_resource(rname(r), allow_preemption=bool(pre))
+            (self.cell or self.sys).register_resource(rname(r), allow_preemption=bool(pre))
+        self.in_step_adv = False   # a controller.advance made through the step API: default condition, not scripted
         self.ever = set()
         self.acq_log = []          # (op, resource, result code) of every acquire_resource call
         self.script = None
@@ -93,6 +118,8 @@ class World:
 
     def _wrap_condition(self, orig):
         def cond(ctx):
+            if self.in_step_adv:
+                return bool(orig(ctx))
             k = self.cp_count
             self.cp_count += 1
             beh = "default"
@@ -126,6 +153,9 @@ class World:
                     l = self.ctl.resources[rname(r)]
                     row += [onum(l.owner), l.hold_count]
                 self.log.append(row)
+            elif act[0] == "look":
+                if self.look():
+                    self.log.append([199])
             else:
                 e0 = len(events)
                 self.log.append([3] + self.fstep(act[1]))
@@ -169,6 +199,35 @@ class World:
                 "edges": sorted((onum(w), onum(b), rnum(r)) for w, deps in g.items() for (b, r) in deps),
                 "cycle": None if d is None else [onum(a) for a in d.agents]}
 
+    # -- read-only accessors -------------------------------------------------
+    def look(self):
+        """Every read-only accessor of the system, its parts and (when there is one) the cell.  They are not part of
+        the model's alphabet (stripped from the Coq case): whatever they change shows as a difference to the model.
+        -> True iff the visible state differs afterwards."""
+        c = self.ctl
+        before = (self.view(), self.snapshot())
+        h = self.cell.health() if self.cell is not None else self.sys.health()
+        if self.cell is not None:
+            str(h)
+            self.sys.health()
+        c.stats()
+        for r in self.res:
+            l = c.resources[rname(r)]
+            l.hold_duration
+            l.is_available
+        g = c.dependency_graph
+        for o in list(c.active_operations.keys()) + list(g.edges.keys()):
+            g.get_blocking_chain(o)
+        c.check_deadlock()
+        wd, pm = self.sys.watchdog, self.sys.priority_manager
+        wd.check(c)
+        wd.stats()
+        pm.stats()
+        for o in list(c.active_operations.keys()):
+            pm.get_boost(o)
+            pm.is_boosted(o)
+        return (self.view(), self.snapshot()) != before
+
     # -- step API ----------------------------------------------------------
     def fstep(self, a):
         before = self.view()
@@ -184,7 +243,7 @@ class World:
             if o in self.ever:
                 return [-1]
             self.ever.add(o)
-            ctx = c.start_operation(oname(o), "agent", p)
+            ctx = self.sys.start_operation(oname(o), "agent", p)
             if ex:
                 ctx.metadata["watchdog_exempt"] = True
             return [0]
@@ -217,8 +276,32 @@ class World:
             for e in evs:
                 out += [onum(e.operation_id), REASON[e.reason.value]]
             return out
+        if k == "maint":
+            # CoordinationSystem.run_maintenance: priority inheritance, then the watchdog
+            m = self.cell.run_maintenance()["coordination"] if self.cell is not None else self.sys.run_maintenance()
+            out = [len(m["priority_boosts"])]
+            for b in m["priority_boosts"]:
+                out += [onum(b.operation_id), b.boosted_priority]
+            for e in m["apoptosis"]:
+                out += [onum(e.operation_id), REASON[e.reason.value]]
+            return out
+        if k == "adv":
+            ctx = c.active_operations.get(oname(a[1]))
+            if ctx is None:
+                return [-1]
+            self.in_step_adv = True
+            try:
+                return [int(c.advance(ctx).value == "passed")]
+            finally:
+                self.in_step_adv = False
+        if k == "pop":
+            lock = c.resources.get(rname(a[1]))
+            if lock is None:
+                return [-1]
+            x = lock.pop_next_waiter()
+            return [0] if x is None else [1, onum(x[0]), x[1]]
         if k == "shutdown":
-            self.sys.shutdown()
+            (self.cell or self.sys).shutdown()
             return [0]
         if k == "tick":
             VClock.now_s += a[1]
@@ -262,12 +345,21 @@ class World:
             self._mark()
             return ok
         try:
-            res = self.sys.execute_operation(oname(o), "agent", work_fn, resources=[rname(r) for r in reqs],
-                                             validate_fn=None if sc["validate"] == "none" else validate_fn,
-                                             priority=p)
+            # `resources` is Optional: an empty request list is passed as None by every other operation id
+            rlist = None if (not reqs and o % 2 == 0) else [rname(r) for r in reqs]
+            if self.cell is not None:
+                cres = self.cell.execute("agent", oname(o), work_fn, resources=rlist,
+                                         validate_fn=None if sc["validate"] == "none" else validate_fn, priority=p)
+                res = cres.coordination_result
+                success = bool(cres.success)     # what the caller of the cell is told
+            else:
+                res = self.sys.execute_operation(oname(o), "agent", work_fn, resources=rlist,
+                                                 validate_fn=None if sc["validate"] == "none" else validate_fn,
+                                                 priority=p)
+                success = bool(res.success)
         finally:
             self.script, self.log = None, None
-        info["success"] = bool(res.success)
+        info["success"] = success
         info["log"] = log
         info["acqs"] = self.acq_log[info["acq_from"]:]
         info["last_view"], last_acq = self.mark
@@ -275,7 +367,7 @@ class World:
         # terminations of THIS operation during the call that its own work script did not ask for
         info["killed_by_system"] = [e.reason.value for e in events[ev_from:]
                                     if e.operation_id == oname(o) and id(e) not in scripted_events]
-        rows = [[100, int(bool(res.success)), PHASE[res.phase_reached.value]]] + [[105] + e for e in log]
+        rows = [[100, int(success), -1 if res is None else PHASE[res.phase_reached.value]]] + [[105] + e for e in log]
         return rows, info
 
 
@@ -293,6 +385,13 @@ def run_history(case):
         for a in case["ops"]:
             before = w.view()
             w.calls = []
+            if a[0] == "look":
+                # transparent to the model: no rows unless something visible changed
+                rows = [[199]] if w.look() else []
+                obs += rows
+                steps.append({"op": a, "ret": [r[0] for r in rows], "before": before, "after": w.view(), "info": None,
+                              "calls": []})
+                continue
             if a[0] == "exec":
                 rows, info = w.exec_op(a)
             else:
@@ -331,6 +430,12 @@ def coq_fop(a):
         return "FShutdown"
     if k == "tick":
         return f"(FTick {cz(a[1])})"
+    if k == "maint":
+        return "FMaintain"
+    if k == "adv":
+        return f"(FAdvance {cz(a[1])})"
+    if k == "pop":
+        return f"(FPopWaiter {cz(a[1])})"
     raise ValueError(a)
 
 
@@ -351,12 +456,15 @@ def coq_cact(x):
         return "CShutdown"
     if a[0] == "tick":
         return f"(CTick {cz(a[1])})"
+    if a[0] == "maint":
+        return "CMaintain"
     raise ValueError(f"not a checkpoint-callback action: {x}")
 
 
 def coq_script(sc):
-    work = clist(["WProbe" if x[0] == "probe" else f"(WDo {coq_fop(x[1])})" for x in sc["work"]])
-    cpw = clist([clist([coq_cact(x) for x in acts]) for acts in sc.get("cpw", [])])
+    # ["look"] (read-only accessors) is not part of the model's alphabet
+    work = clist(["WProbe" if x[0] == "probe" else f"(WDo {coq_fop(x[1])})" for x in sc["work"] if x[0] != "look"])
+    cpw = clist([clist([coq_cact(x) for x in acts if x[0] != "look"]) for acts in sc.get("cpw", [])])
     return (f"(mkScript {clist([CPO[c] for c in sc['cp']])} {cpw} {work} {cbool(sc['raises'])} "
             f"{VFN[sc['validate']]})")
 
@@ -421,29 +529,47 @@ class C14(Check):
             "<=2 (quick) / <=3 (thorough) over 3 resources x 13 fault positions x 4 pre-held configurations with a follow-up "
             "operation and shutdown; termination from inside checkpoint callback k x 6 ways x 5 request lists x faults; queue "
             "shapes x priorities x which waiter ended x how the holder let go x 5 endings; blocked-then-retried ids x 13 faults. "
+            "Widened after the implementation-coverage diagnostic: CoordinationSystem.run_maintenance (priority inheritance, then "
+            "the watchdog) as a history step, from inside work_fn and from inside checkpoint callbacks - priority-inversion "
+            "histories in which the boost lets a blocked operation preempt what it was blocked on; controller.advance through "
+            "the step API (operations waiting in G1 = the watchdog's starvation branch, time-out at / beyond / negative / zero); "
+            "ResourceLock.pop_next_waiter; wait-for chains and cycles with edges leaving the cycle, a deadlock victim that is "
+            "overdue as well; start through CoordinationSystem.start_operation; resources=None; a quarter of the cases drive the "
+            "same system through operon_ai.cell.IntegratedCell (execute / run_maintenance / health / shutdown / "
+            "register_resource, agent registered with surveillance or not, tag pool 1000 / 1 / 0) and a third interleave every "
+            "read-only accessor (health, stats, Watchdog.check, check_deadlock, hold_duration, is_available, get_blocking_chain, "
+            "get_boost, is_boosted, str(CellHealth)) between the operations and inside the callbacks - both are NOT part of the "
+            "model's alphabet (stripped from the Coq case), so any effect they have is a disagreement, and a visible state "
+            "change is reported by the monitor. "
             "non-trivial = some fault, repeat, pre-held resource or scripted callback; distinct by content")
     LEVEL_TEXT = ("Coq theorems, for every well-formed controller state (an invariant proved to be preserved by every operation, so every "
                   "reachable state), every request list, priority, fault script, scripted work function and scripted checkpoint callbacks "
-                  "(manual kill of any operation incl. the executing one, watchdog pass, shutdown, time passing): after "
+                  "(manual kill of any operation incl. the executing one, watchdog pass, maintenance pass, shutdown, time passing): after "
                   "execute_operation of an id that is not live (fresh, or of an operation that has ended) nothing is owned by it "
                   "and it is not active; resources it never obtained keep owner/hold_count/priority; "
                   "work_fn is invoked at most once and then the operation is active and owns every requested resource (an operation "
                   "ended while a checkpoint callback ran never runs its work); validation only after work "
                   "returned; success iff work and validation succeeded (and the checkpoints passed); the same no-leak statement for "
-                  "complete/abort/manual kill/watchdog.execute/shutdown and, as an invariant, every owner is an active operation. The "
+                  "complete/abort/manual kill/watchdog.execute/run_maintenance/shutdown (priority inheritance touches no lock, ends "
+                  "nobody, terminates) and, as an invariant, every owner is an active operation. The "
                   "model is tied to the code by running both on the same generated histories (model evaluated by vm_compute).")
     LEVEL_NOTE = ("Trusts: Coq kernel+VM; the correspondence harness; an operation id is never that of a live operation (driver-enforced; "
                   "execute_operation may re-use the id of an ended one); single-threaded calls; checkpoint callbacks restricted to the "
-                  "termination alphabet (kill / watchdog / shutdown / time); priority inheritance (priority.py) not modelled. Axioms: none.")
+                  "termination alphabet (kill / watchdog / run_maintenance / shutdown / time); PriorityInheritance.active_boosts (the "
+                  "remembered original priorities) is not part of the model state: nothing in the system reads it back. Axioms: none.")
     TECHNIQUE = "Coq proof of a state invariant + per-call postconditions; vm_compute correspondence against operon_ai.coordination"
     TRUSTED = ["modelled not verified: operation/resource ids are integers; OperationContext objects are identified with their (fresh) "
                "operation id; the clock is virtual and moves only by explicit ticks; callbacks are scripts",
                "harness instrumentation: start_operation re-stamps created_at/phase_entered_at from the virtual clock; the default "
                "checkpoint conditions are wrapped (logging + injected faults + scripted callback bodies); acquire_resource results are logged",
-               "PriorityInheritance.check_and_boost / run_maintenance are not modelled"]
+               "PriorityInheritance.check_and_boost is modelled as far as it rewrites OperationContext.priority; the remembered "
+               "original priorities (active_boosts; restore_priority / clear_all on live operations) are C15's extended alphabet",
+               "IntegratedCell's quality / surveillance side (tagging, proteasome, immune observation) is executed but not modelled: "
+               "it must be transparent to the coordination observations",
+               "read-only accessors are executed and must be transparent (not in the model's alphabet)"]
     ASSUMPTIONS = ["an operation is never started under the id of a LIVE operation; start_operation (step API) ids are fresh; "
                    "execute_operation may re-use the id of an operation that has ended, but not from inside a callback of that id",
-                   "checkpoint callbacks end operations / let time pass (kill, watchdog.execute, shutdown, tick) and inspect locks; "
+                   "checkpoint callbacks end operations / let time pass (kill, watchdog.execute, run_maintenance, shutdown, tick) and inspect locks; "
                    "they do not acquire or release resources themselves",
                    "resources are registered before the history starts and never re-registered",
                    "calls are sequential (no concurrent threads inside the controller)"]
@@ -453,21 +579,27 @@ class C14(Check):
         k = rng.random()
         o = rng.choice(ops_pool)
         r = rng.choice(res_pool)
-        if k < 0.18:
+        if k < 0.16:
             return ["start", o, rng.choice([0, 0, 1, 2, 5]), rng.random() < 0.1]
-        if k < 0.55:
+        if k < 0.50:
             return ["acq", o, r]
-        if k < 0.67:
+        if k < 0.60:
             return ["rel", o, r]
-        if k < 0.72:
+        if k < 0.64:
             return ["complete", o]
-        if k < 0.77:
+        if k < 0.68:
             return ["abort", o]
-        if k < 0.84:
+        if k < 0.74:
             return ["kill", o]
-        if k < 0.91:
+        if k < 0.79:
             return ["wd"]
-        if k < 0.94 and allow_shutdown:
+        if k < 0.85:
+            return ["maint"]                   # run_maintenance: priority inheritance + watchdog
+        if k < 0.90:
+            return ["adv", o]                  # controller.advance(ctx): G0 -> G1, where starvation is watched
+        if k < 0.92:
+            return ["pop", r]                  # ResourceLock.pop_next_waiter()
+        if k < 0.95 and allow_shutdown:
             return ["shutdown"]
         return ["tick", rng.choice([1, 2, 5])]
 
@@ -482,10 +614,14 @@ class C14(Check):
                 out.append(["do", ["kill", rng.choice(ops_pool)]])
             elif k < 0.6:
                 out.append(["do", ["shutdown"]])
-            elif k < 0.75:
+            elif k < 0.7:
                 out.append(["do", ["wd"]])
+            elif k < 0.8:
+                out.append(["do", ["maint"]])
             elif k < 0.9:
                 out.append(["do", ["tick", rng.choice([1, 2, 5])]])
+            elif k < 0.95:
+                out.append(["look"])
             else:
                 out.append(["probe"])
         return out
@@ -499,8 +635,11 @@ class C14(Check):
             sc["cp"] = [rng.choice(["default", "default", "false", "raise"]) for _ in range(rng.randint(1, 4))]
         n = rng.choice([0, 0, 1, 2, 3, 4])
         for _ in range(n):
-            if rng.random() < 0.3:
+            k = rng.random()
+            if k < 0.3:
                 sc["work"].append(["probe"])
+            elif k < 0.38:
+                sc["work"].append(["look"])
             else:
                 a = self._rand_fop(rng, ops_pool + [me, me], res_pool)
                 sc["work"].append(["do", a])
@@ -565,7 +704,14 @@ class C14(Check):
                     ops[3:5] = [ops[4], ops[3]]
                 if rng.random() < 0.5:
                     ops[5:7] = [ops[6], ops[5]]
-                ops.append(["wd"])
+                if nres >= 3 and rng.random() < 0.5:
+                    # a member of the cycle waits for an outsider first (its first edge leaves the cycle), or an
+                    # outsider waits for a member (a chain into the cycle)
+                    if rng.random() < 0.5:
+                        ops[5:5] = [["start", 3, rng.choice([0, 1, 2]), False], ["acq", 3, 3], ["acq", rng.choice([1, 2]), 3]]
+                    else:
+                        ops[5:5] = [["start", 3, rng.choice([0, 1, 2]), False], ["acq", 3, rng.choice([1, 2])]]
+                ops.append(rng.choice([["wd"], ["wd"], ["maint"]]))
             elif mode < 0.3:
                 # watchdog time-outs: total time (step API), starvation / no progress (from inside work_fn)
                 kind = rng.choice(["max", "starve", "progress"])
@@ -581,6 +727,23 @@ class C14(Check):
                 # which leave their id in the waiting list), some waiters end, the holder lets go, survivors retry
                 # (execute_operation re-using the id that was blocked before), everybody ends in some way
                 ops = self._rand_queue(rng, res, res_pool)
+            elif mode < 0.62 and nres >= 2:
+                # priority inversion: run_maintenance boosts the holders along the blocking chain; a boosted operation
+                # then preempts what it was blocked on, also while another operation's work function runs
+                ops = self._rand_inversion(rng, res)
+            elif mode < 0.7:
+                # starvation: operations advanced to G1 through the step API wait for their resources
+                w["starve"] = rng.choice([1, 2, -1])
+                ops = [["start", 1, rng.choice([0, 3]), False], ["adv", 1], ["acq", 1, 1],
+                       ["start", 2, 1, rng.random() < 0.2]]
+                if rng.random() < 0.7:
+                    ops.append(["adv", 2])
+                ops += [["acq", 2, 1], ["tick", rng.choice([1, 2, 3])]]
+                if rng.random() < 0.4:
+                    sc = plain_script(work=[["probe"], ["do", ["tick", rng.choice([0, 3])]],
+                                            ["do", [rng.choice(["wd", "maint"])]], ["probe"]], validate="true")
+                    ops.append(["exec", 3, rng.choice([0, 5]), [rng.choice(res_pool)], sc])
+                ops.append([rng.choice(["wd", "maint"])])
             for _ in range(rng.randint(1, 9) if not ops else rng.randint(0, 3)):
                 if rng.random() < 0.3:
                     me = rng.choice(ops_pool)
@@ -588,8 +751,69 @@ class C14(Check):
                     ops.append(["exec", me, rng.choice([0, 1, 3, 7]), reqs, self._rand_script(rng, me, ops_pool, res_pool)])
                 else:
                     ops.append(self._rand_fop(rng, ops_pool, res_pool))
+            # the same system reached through IntegratedCell; read-only accessors between the operations
+            if rng.random() < 0.25:
+                w.update({"via": "cell", "pool": rng.choice([1000, 1000, 1, 0]), "agent": rng.random() < 0.5})
+            if rng.random() < 0.3:
+                ops = self._with_looks(ops, lambda: rng.random() < 0.4)
             out.append({"res": res, "w": w, "ops": ops})
         return out
+
+    @staticmethod
+    def _with_looks(ops, want):
+        """Interleave ["look"] (every read-only accessor) between the operations and inside the callbacks."""
+        out = []
+        for a in ops:
+            if a[0] == "exec":
+                sc = a[4]
+                work = []
+                for x in sc["work"]:
+                    if want():
+                        work.append(["look"])
+                    work.append(x)
+                if want():
+                    work.append(["look"])
+                cpw = [list(acts) for acts in sc.get("cpw", [])]
+                while len(cpw) < 4:
+                    cpw.append([])
+                cpw = [([["look"]] if want() else []) + acts for acts in cpw]
+                a = a[:4] + [{**sc, "work": work, "cpw": cpw}]
+            out.append(a)
+            if want():
+                out.append(["look"])
+        return out
+
+    def _decorate(self, cases):
+        """Deterministically turn a share of the enumerated cases into their IntegratedCell / accessor variants
+        (both are transparent to the model: the expected observations stay those of the plain case)."""
+        out = []
+        for i, c in enumerate(cases):
+            if i % 5 == 2:
+                c = {**c, "w": {**c["w"], "via": "cell", "pool": [1000, 1, 0][(i // 5) % 3], "agent": (i // 15) % 2 == 0}}
+            if i % 4 == 1:
+                c = {**c, "ops": self._with_looks(c["ops"], lambda: True)}
+            out.append(c)
+        return out
+
+    def _rand_inversion(self, rng, res):
+        r1, r2 = res[0][0], res[1][0]
+        pa, pw, px = rng.choice([5, 5, 1]), rng.choice([3, 3, 0]), rng.choice([9, 9, 4, 2])
+        ops = [["start", 1, pa, False], ["acq", 1, r1], ["start", 2, pw, False], ["acq", 2, r2], ["acq", 2, r1],
+               ["start", 3, px, False], ["acq", 3, r2]]
+        if rng.random() < 0.3:
+            ops += [["start", 4, rng.choice([0, 7, 12]), False], ["acq", 4, rng.choice([r1, r2])]]
+        retry = [["acq", 2, r1], ["acq", 3, r2], ["acq", 1, r2]]
+        rng.shuffle(retry)
+        if rng.random() < 0.5:
+            ops += [["maint"]] + retry[:rng.choice([1, 2, 3])]
+        else:
+            # the boost and the retries happen while another operation is inside its work function
+            work = [["probe"], ["do", ["maint"]]] + [["do", x] for x in retry[:rng.choice([1, 2])]] + [["probe"]]
+            name, sc = rng.choice(FAULTS)
+            ops.append(["exec", 5, rng.choice([0, 6, 10]), [rng.choice([r1, r2]) for _ in range(rng.choice([0, 1, 2]))],
+                        {**sc, "work": work}])
+        ops.append(rng.choice([["maint"], ["wd"], ["kill", 1], ["complete", 2], ["pop", r1], ["tick", 1]]))
+        return ops
 
     def exhaustive_cases(self):
         top = 2 if self.tier == "quick" else 3
@@ -612,7 +836,7 @@ class C14(Check):
                         out.append({"res": res, "w": dict(NOW), "ops": ops})
         # self-directed actions from inside work_fn, one at a time
         inner = [["kill", 1], ["abort", 1], ["complete", 1], ["rel", 1, 1], ["acq", 1, 2], ["shutdown"], ["wd"],
-                 ["acq", 5, 2], ["acq", 5, 1], ["tick", 5]]
+                 ["acq", 5, 2], ["acq", 5, 1], ["tick", 5], ["maint"], ["adv", 5], ["adv", 1], ["pop", 1]]
         for act in inner:
             for _name, sc in FAULTS:
                 for reqs in ([1], [1, 1], [2, 1], [2, 2, 1]):
@@ -652,6 +876,67 @@ class C14(Check):
                     out.append({"res": pres, "w": {"strategy": "priority", **wt}, "ops": ops})
         out += self._callback_termination_cases()
         out += self._queue_cases()
+        out += self._maintenance_cases()
+        return self._decorate(out)
+
+    def _maintenance_cases(self):
+        """run_maintenance (priority inheritance + watchdog), operations advanced to G1 through the step API
+        (starvation), wait-for chains and cycles with edges that leave the cycle, pop_next_waiter."""
+        out = []
+        ends = [["kill", 2], ["complete", 2], ["abort", 1], ["wd"], ["maint"], ["shutdown"]]
+        # priority inversion: op1 holds r1, op2 holds r2 and is blocked on r1, op3 is blocked on r2; the maintenance
+        # pass boosts op2 (and op1); op2's retry then preempts r1 (when r1 allows it) - at top level, and while a
+        # fourth operation that owns r1 / r3 is inside its work function or one of its checkpoint callbacks
+        for pre1 in (True, False):
+            res = [[1, pre1], [2, False], [3, True]]
+            for pa, pw, px in ((5, 3, 9), (1, 3, 9), (5, 3, 4), (9, 3, 5)):
+                head = [["start", 1, pa, False], ["acq", 1, 1], ["start", 2, pw, False], ["acq", 2, 2], ["acq", 2, 1],
+                        ["start", 3, px, False], ["acq", 3, 2]]
+                for end in ends:
+                    out.append({"res": res, "w": dict(NOW), "ops": head + [["maint"], ["acq", 2, 1], ["acq", 2, 1], ["maint"],
+                                                                          end, ["exec", 4, 0, [1, 2], plain_script(work=[["probe"]])],
+                                                                          ["pop", 1], ["pop", 1], ["shutdown"]]})
+                for _name, sc in FAULTS:
+                    sc1 = {**sc, "work": [["probe"], ["do", ["maint"]], ["do", ["acq", 2, 1]], ["probe"], ["do", ["acq", 2, 3]], ["probe"]]}
+                    out.append({"res": res, "w": dict(NOW), "ops": head + [["complete", 1], ["exec", 4, 6, [1, 3, 1], sc1],
+                                                                          ["maint"], ["shutdown"]]})
+                for k in range(4):
+                    sc1 = plain_script(cpw=[[] for _ in range(k)] + [[["do", ["maint"]], ["probe"]]], work=[["probe"]], validate="true")
+                    out.append({"res": res, "w": {"strategy": "priority", "max": 2},
+                                "ops": head + [["tick", 3], ["exec", 4, 6, [3, 3], sc1], ["shutdown"]]})
+        # starvation: G1 without resources for longer than the time-out (only reachable through controller.advance)
+        for starve in (2, -1, 0):
+            for via in (["wd"], ["maint"]):
+                for adv2 in (True, False):
+                    for ex in (False, True):
+                        w = {"strategy": "priority", "starve": starve}
+                        ops = [["start", 1, 0, False], ["adv", 1], ["adv", 1], ["acq", 1, 1], ["start", 2, 1, ex]] + \
+                              ([["adv", 2]] if adv2 else []) + [["acq", 2, 1], ["tick", 3], via,
+                                                               ["exec", 3, 0, [1], plain_script(work=[["probe"]])],
+                                                               ["adv", 2], ["tick", 3], via, ["shutdown"]]
+                        out.append({"res": [[1, False], [2, True]], "w": w, "ops": ops})
+        for _name, sc in FAULTS:
+            for via in (["wd"], ["maint"]):
+                sc1 = {**sc, "work": [["probe"], ["do", ["tick", 3]], ["do", via], ["probe"]]}
+                ops = [["start", 1, 0, False], ["adv", 1], ["acq", 1, 1], ["start", 2, 0, False], ["adv", 2], ["acq", 2, 1],
+                       ["exec", 3, 0, [2, 2], sc1], ["exec", 4, 0, [1], plain_script(work=[["probe"]])], ["shutdown"]]
+                out.append({"res": [[1, False], [2, True]], "w": {"strategy": "priority", "starve": 2}, "ops": ops})
+        # wait-for chains (an already visited start node of the DFS) and cycles one of whose members waits for an
+        # outsider first
+        res = [[1, False], [2, False], [3, False]]
+        for strat in ("priority", "oldest", "first"):
+            for via in (["wd"], ["maint"]):
+                chain = [["start", 1, 2, False], ["start", 2, 1, False], ["start", 3, 0, False], ["acq", 3, 2], ["acq", 2, 1],
+                         ["acq", 1, 1], ["acq", 2, 2], via, ["acq", 3, 1], via, ["shutdown"]]
+                out.append({"res": res, "w": {"strategy": strat}, "ops": chain})
+                cyc = [["start", 1, 2, False], ["tick", 1], ["start", 2, 1, False], ["start", 3, 0, False], ["acq", 3, 3],
+                       ["acq", 1, 1], ["acq", 2, 2], ["acq", 1, 3], ["acq", 1, 2], ["acq", 2, 3], ["acq", 2, 1], via,
+                       ["exec", 4, 0, [1, 2], plain_script(work=[["probe"]])], via, ["shutdown"]]
+                out.append({"res": res, "w": {"strategy": strat}, "ops": cyc})
+                # the deadlock victim is overdue as well (reported once, as a time-out)
+                both = [["start", 1, 1, False], ["start", 2, 2, False], ["acq", 1, 1], ["acq", 2, 2], ["tick", 3],
+                        ["start", 3, 0, False], ["acq", 1, 2], ["acq", 2, 1], ["acq", 3, 1], via, via, ["shutdown"]]
+                out.append({"res": res, "w": {"strategy": strat, "max": 2}, "ops": both})
         return out
 
     def _callback_termination_cases(self):
@@ -668,6 +953,7 @@ class C14(Check):
             ({"strategy": "priority", "max": 2}, [["do", ["tick", 3]], ["do", ["wd"]]]),      # total-time limit: everybody overdue
             ({"strategy": "priority", "progress": 1}, [["do", ["tick", 2]], ["do", ["wd"]], ["probe"]]),  # only an operation in S
             ({"strategy": "priority", "starve": 1}, [["do", ["tick", 2]], ["do", ["wd"]]]),
+            ({"strategy": "priority", "max": 2}, [["do", ["tick", 3]], ["do", ["maint"]]]),   # the same through run_maintenance
         ]
         out = []
         for k in range(4):
@@ -734,7 +1020,8 @@ class C14(Check):
         return common.call_with_watchdog(lambda: run_history(case), 10.0)
 
     def coq_case(self, case):
-        return ctuple(coq_res(case["res"]), coq_wcfg(case["w"]), clist([coq_op(a) for a in case["ops"]]))
+        return ctuple(coq_res(case["res"]), coq_wcfg(case["w"]),
+                      clist([coq_op(a) for a in case["ops"] if a[0] != "look"]))
 
     # -- the property, on the implementation's trace ------------------------
     def monitor(self, case, obs, steps):
@@ -758,8 +1045,8 @@ class C14(Check):
                 ca, cb, cf = c["op"], c["before"], c["after"]
                 if ca[0] in ("complete", "abort", "kill"):
                     ended = {ca[1]}
-                elif ca[0] == "wd":
-                    ended = set(c["ret"][0::2])
+                elif ca[0] in ("wd", "maint"):
+                    ended = {v for v, _why in wd_pairs(ca, c["ret"])}
                 else:
                     continue
                 for r, (ow, h, _p) in cb["owners"].items():
@@ -768,6 +1055,16 @@ class C14(Check):
                                          f"step {i}: {ca} ended {sorted(ended)} but r{r}, owned by "
                                          f"{'nobody' if ow == -1 else 'op%d' % ow} (hold {h}), became {cf['owners'][r][:2]}")
             k = a[0]
+            # health() / stats() / check() / hold_duration / get_blocking_chain ... only look
+            if k == "look" and st["ret"]:
+                diff = sorted(f for f in before if before[f] != after.get(f))
+                return Violation("C14/accessor-changed-state",
+                                 f"step {i}: the read-only accessors changed {diff or 'the observable state'}: "
+                                 f"{ {f: (before[f], after.get(f)) for f in diff} }")
+            if k == "exec" and st["info"] is not None and [199] in st["info"]["log"]:
+                return Violation("C14/accessor-changed-state",
+                                 f"step {i}: read-only accessors called from inside a callback of execute_operation "
+                                 f"(op{st['info']['op']}) changed the observable state; log {st['info']['log']}")
             if k == "exec" and st["info"] is not None:
                 info = st["info"]
                 o = info["op"]
@@ -816,8 +1113,8 @@ class C14(Check):
                             return Violation("C14/unobtained-touched", f"step {i}: r{r} was never obtained by op{o} but changed {v} -> {owners[r]}")
             if k in ("complete", "abort", "kill") and (owned_by(a[1]) or a[1] in after["active"]):
                 return Violation("C14/leak-after-" + k, f"step {i} {a}: still owns {owned_by(a[1])} / active={a[1] in after['active']}")
-            if k == "wd":
-                for v in st["ret"][0::2]:
+            if k in ("wd", "maint"):
+                for v, _why in wd_pairs(a, st["ret"]):
                     if owned_by(v) or v in after["active"]:
                         return Violation("C14/leak-after-watchdog", f"step {i}: op{v} was terminated but still owns {owned_by(v)} / is active")
             if k == "shutdown" and (after["active"] or any(ow != -1 for ow, _h, _p in owners.values())):
@@ -830,13 +1127,16 @@ class C14(Check):
                 sc = a[4]
                 if sc["cp"] or sc.get("cpw") or sc["work"] or sc["raises"] or sc["validate"] != "none" or len(set(a[3])) < len(a[3]):
                     return True
-        return any(a[0] in ("kill", "wd", "shutdown") for a in case["ops"])
+        return any(a[0] in ("kill", "wd", "maint", "shutdown") for a in case["ops"])
 
     def classify(self, case, obs, steps):
         ks = []
         if not isinstance(steps, list):
             return ["error"]
-        used = set()
+        used, boosted = set(), set()
+        if case["w"].get("via") == "cell":
+            ks.append("via-cell" + ("-agent-registered" if case["w"].get("agent") else "") +
+                      ("-pool-exhausted" if case["w"].get("pool", 1000) < 2 else ""))
         for st in steps:
             a = st["op"]
             ks.append("op=" + a[0])
@@ -849,6 +1149,16 @@ class C14(Check):
             if a[0] == "exec" and st["info"]:
                 info = st["info"]
                 ks.append("exec-success" if info["success"] else "exec-failed")
+                if any(x[0] == "look" for acts in [a[4]["work"]] + a[4].get("cpw", []) for x in acts):
+                    ks.append("accessors-inside-callback")
+                for c in st["calls"]:
+                    if c["op"][0] in ("maint", "adv", "pop"):
+                        ks.append("inside-callback-" + c["op"][0])
+                    if c["op"][0] == "maint" and c["ret"] and c["ret"][0] > 0:
+                        ks.append("maintenance-boosted-inside-callback")
+                    for _v, rc in wd_pairs(c["op"], c["ret"]):
+                        if c["op"][0] == "maint":
+                            ks.append("maintenance-kill-inside-callback")
                 for k, acts in enumerate(a[4].get("cpw", [])):
                     for x in acts:
                         if x[0] == "do":
@@ -864,9 +1174,18 @@ class C14(Check):
                         ks.append(f"cp{e[1]}-failed")
                     if e in ([5], [7], [6, 0]):
                         ks.append({5: "work-raised", 7: "validate-raised", 6: "validate-false"}[e[0]])
-            if a[0] == "wd":
-                for rc in st["ret"][1::2]:
+            if a[0] in ("wd", "maint"):
+                for _v, rc in wd_pairs(a, st["ret"]):
                     ks.append("watchdog=" + ["timeout", "starvation", "no_progress", "deadlock", "manual"][rc])
+            if a[0] == "maint" and st["ret"] and st["ret"][0] > 0:
+                ks.append("maintenance-boosted")
+                boosted.update(st["ret"][1:1 + 2 * st["ret"][0]:2])
+            if a[0] == "acq" and st["ret"] == [3] and a[1] in boosted:
+                ks.append("boosted-operation-preempts")
+            if a[0] == "adv":
+                ks.append("advance=" + {1: "passed", 0: "failed", -1: "not-active"}[st["ret"][0]])
+            if a[0] == "pop":
+                ks.append("pop=" + ("waiter" if st["ret"][0] == 1 else "none"))
         return ks
 
     def shrink(self, case, pred):
